@@ -77,6 +77,7 @@ theorem C10_tab_new_units_accepted :
   | ambiguous s => simp [Verdict.isAccepted] at hacc
   | badDefinition e => simp [Verdict.isAccepted] at hacc
   | unsupported => simp [Verdict.isAccepted] at hacc
+  | notAWord => simp [Verdict.isAccepted] at hacc
 
 /-- Table obligation **T1 for new units**: for every new unit `r` and every SI prefix `p = 10^k` (and no prefix), the
 package's `lookup (p ++ r.name)` is an exact magnitude equal to `10^k` times what the definition of `r` means over the
